@@ -115,9 +115,14 @@ func NewSubscriberWithConcurrencyMode[T any](destination Observer[T], mode Concu
 // newSubscriberImpl creates a new subscriber implementation with the specified
 // synchronization behavior and destination observer.
 func newSubscriberImpl[T any](mode ConcurrencyMode, mu xsync.Mutex, backpressure Backpressure, destination Observer[T]) Subscriber[T] {
-	// Protect against multiple encapsulation layers.
+	// Protect against multiple encapsulation layers. A lock-free subscriber cannot serialize
+	// the producers of an observable that asked for a safe one (for example an unsafe
+	// pass-through operator downstream of a multi-source operator): it is wrapped, not reused.
 	if subscriber, ok := destination.(Subscriber[T]); ok {
-		return subscriber
+		impl, isImpl := subscriber.(*subscriberImpl[T])
+		if !isImpl || mode == ConcurrencyModeUnsafe || impl.mode != ConcurrencyModeUnsafe {
+			return subscriber
+		}
 	}
 
 	subscriber := &subscriberImpl[T]{
